@@ -250,6 +250,12 @@ pub fn trace(args: &[String]) {
   let outp = arg_value(args, "--out").expect("--out");
   let no_ticks = args.iter().any(|a| a == "--no-ticks");
   let no_joypad = args.iter().any(|a| a == "--no-joypad");
+  // C12: only the cartridge's side of the bus (controller registers, ROM, cartridge RAM): what a device register does
+  // with a write is not the controller's business
+  let cart_only = args.iter().any(|a| a == "--cart-only");
+  // C10: which bank a controller shows is C12's business: on cartridges with a controller the history leaves its
+  // registers alone (writes into 0x0000-0x7FFF are made on the ROM-only cartridges, where they must change nothing)
+  let no_mbc_writes = args.iter().any(|a| a == "--no-mbc-writes");
   let mut rng = Rng::new(seed_from_env() ^ 0x1012);
   let mut out: Vec<u8> = Vec::new();
   let carts: [(u8, u8, u8); 8] = [(0, 0, 0), (0, 0, 2), (1, 2, 3), (3, 1, 1), (2, 0x53, 2), (0x13, 3, 3), (0x11, 2, 0), (0x12, 0x52, 2)];
@@ -274,6 +280,14 @@ pub fn trace(args: &[String]) {
       count += 1;
       let k = rng.below(20);
       let addr = |rng: &mut Rng, recent: &Vec<u16>| -> u16 {
+        if cart_only {
+          return match rng.below(10) {
+            0 | 1 | 2 | 3 => *rng.pick(&[0x0000u16, 0x1fff, 0x2000, 0x2100, 0x3fff, 0x4000, 0x5fff, 0x6000, 0x7fff]),
+            4 | 5 => rng.word() & 0x7fff,
+            6 => *rng.pick(&[0x0000u16, 0x3fff, 0x4000, 0x7fff, 0xa000, 0xa7ff, 0xa800, 0xbfff]),
+            _ => 0xa000 + (rng.word() & 0x1fff),
+          };
+        }
         match rng.below(10) {
           0 | 1 => *rng.pick(&ioregs),
           2 => *rng.pick(&[0x0000u16, 0x1fff, 0x2000, 0x2100, 0x3fff, 0x4000, 0x5fff, 0x6000, 0x7fff]),
@@ -285,6 +299,7 @@ pub fn trace(args: &[String]) {
       if k < 8 {
         let a = addr(&mut rng, &recent); let v = if rng.chance(1, 4) { *rng.pick(&[0u8, 1, 3, 0x0a, 0x1f, 0x20, 0x7f, 0x80, 0xff]) } else { rng.byte() };
         if a == 0xff02 && v & 0x80 != 0 { count -= 1; continue; }   // serial output is C18's business (it writes to this process's stdout)
+        if no_mbc_writes && cart.0 != 0 && a < 0x8000 { count -= 1; continue; }
         memory_write_byte(p, a, v); recent.push(a); if recent.len() > 12 { recent.remove(0); }
         writeln!(out, "{}", json!({"ev": "bw", "a": a, "v": v, "o": crate::cmd_machine::project(&mut core)})).unwrap();
       } else if k < 16 {
